@@ -174,6 +174,79 @@ class Writer:
             self.fp[f"{prefix}.{f}"] = d
 
 
+def regex_to_lean(pattern) -> str:
+    """translate a compiled Python regex into the Lean `Hv.Regex.Re` AST (constructs used in the repo only)"""
+    import re._parser as sp
+    import re._constants as sc
+    tree = sp.parse(pattern.pattern, pattern.flags)
+
+    def cat(c):
+        m = {sc.CATEGORY_SPACE: ".space", sc.CATEGORY_NOT_SPACE: ".notSpace", sc.CATEGORY_DIGIT: ".digit", sc.CATEGORY_NOT_DIGIT: ".notDigit"}
+        if c not in m:
+            raise ValueError(f"regex category {c} not supported")
+        return m[c]
+
+    def seq(items):
+        return "(.seq [" + ", ".join(node(op, av) for op, av in items) + "])"
+
+    def node(op, av):
+        if op is sc.LITERAL:
+            return f"(.lit {av})"
+        if op is sc.NOT_LITERAL:
+            return f"(.notLit {av})"
+        if op is sc.ANY:
+            return ".any"
+        if op is sc.AT:
+            if av is sc.AT_BEGINNING:
+                return ".bos"
+            if av is sc.AT_END:
+                return ".eos"
+            raise ValueError(f"regex anchor {av} not supported")
+        if op is sc.IN:
+            neg = False
+            items = []
+            for o, a in av:
+                if o is sc.NEGATE:
+                    neg = True
+                elif o is sc.LITERAL:
+                    items.append(f".ch {a}")
+                elif o is sc.RANGE:
+                    items.append(f".range {a[0]} {a[1]}")
+                elif o is sc.CATEGORY:
+                    items.append(f".cat {cat(a)}")
+                else:
+                    raise ValueError(f"regex class item {o} not supported")
+            return f"(.cls {'true' if neg else 'false'} [{', '.join(items)}])"
+        if op is sc.SUBPATTERN:
+            g, _, _, p = av
+            inner = seq(list(p))
+            return f"(.group {g} {inner})" if g is not None else inner
+        if op is sc.BRANCH:
+            return "(.alt [" + ", ".join(seq(list(b)) for b in av[1]) + "])"
+        if op in (sc.MAX_REPEAT, sc.MIN_REPEAT):
+            lo, hi, p = av
+            mx = "none" if hi == sc.MAXREPEAT else f"(some {hi})"
+            return f"(.rep {lo} {mx} {'true' if op is sc.MAX_REPEAT else 'false'} {seq(list(p))})"
+        raise ValueError(f"regex op {op} not supported")
+
+    return seq(list(tree))
+
+
+def ast_string_lists(mod, qualname):
+    """all list/tuple literals consisting only of str (or bytes) constants inside a function, in source order"""
+    import textwrap
+    obj = mod
+    for part in qualname.split("."):
+        obj = getattr(obj, part)
+    tree = ast.parse(textwrap.dedent(inspect.getsource(obj)))
+    out = []
+    for n in ast.walk(tree):
+        if isinstance(n, (ast.List, ast.Tuple)) and n.elts and all(isinstance(e, ast.Constant) and isinstance(e.value, str) for e in n.elts):
+            out.append((n.lineno, n.col_offset, [e.value for e in n.elts]))
+    out.sort()
+    return [v for _, _, v in out]
+
+
 def guid_bytes_le(u) -> bytes:
     return u.bytes_le
 
@@ -211,6 +284,7 @@ def main() -> int:
     w = Writer()
     w.raw("/- GENERATED by harness/extract.py from /repo on every run. Do not edit. -/")
     w.raw("import Hv.Prim.Layout")
+    w.raw("import Hv.Prim.Regex")
     w.raw("namespace Hv.Extracted")
 
     # ---------------- VDI
@@ -309,7 +383,33 @@ def main() -> int:
     w.natlist("init_literals", lits)
     lits = [v for v in func_literals(m_vmdkpy, "SparseDisk._read_compressed_grain") if isinstance(v, int)]
     w.natlist("compressed_grain_literals", lits)
+    # descriptor grammar: the regex itself, translated
+    try:
+        w.raw("def RE_EXTENT_DESCRIPTOR : Hv.Regex.Re := " + regex_to_lean(m_vmdkpy.RE_EXTENT_DESCRIPTOR))
+        w.fp["vmdk.RE_EXTENT_DESCRIPTOR"] = m_vmdkpy.RE_EXTENT_DESCRIPTOR.pattern
+        gi = m_vmdkpy.RE_EXTENT_DESCRIPTOR.groupindex
+        for gname in ("access_mode", "sectors", "type", "filename", "start_sector", "partition_uuid", "device_identifier"):
+            w.nat(f"G_{gname}", gi[gname])
+    except Exception as e:  # noqa
+        problems.append(f"vmdk.RE_EXTENT_DESCRIPTOR: {e}")
+    try:
+        lists = ast_string_lists(m_vmdkpy, "VMDK.__init__")
+        w.strlist("WIRING_SPARSE", lists[0])
+        w.strlist("WIRING_FLAT", lists[1])
+        lists = ast_string_lists(m_vmdkpy, "DiskDescriptor.parse")
+        w.strlist("EXTENT_PREFIXES", lists[0])
+    except Exception as e:  # noqa
+        problems.append(f"vmdk wiring lists: {e}")
+    blits = [v for v in func_literals(m_vmdkpy, "VMDK.__init__") if isinstance(v, bytes)]
+    w.bytes("DESCRIPTOR_MAGIC", blits[0] if blits else b"")
     w.end("vmdk")
+
+    # ---------------- Unicode tables used by Python str / re
+    import unicodedata
+    w.ns("unicode")
+    w.natlist("SPACES", [c for c in range(0x110000) if chr(c).isspace()])
+    w.natlist("DIGIT_ZEROS", [c for c in range(0x110000) if unicodedata.category(chr(c)) == "Nd" and unicodedata.digit(chr(c)) == 0])
+    w.end("unicode")
 
     # ---------------- QCOW2
     from dissect.hypervisor.disk import c_qcow2 as m_q
